@@ -1,6 +1,7 @@
 import Proofs.C18Frame
 import Proofs.C18Heap
 import Proofs.C18Snappy
+import Proofs.C18Lz4Block
 import Model.CompressRecv
 import Model.CompressSend
 /-!
@@ -357,6 +358,65 @@ example :
 theorem C18_cex_lz4_length_unchecked :
     let b : BlockCodec := { encB := fun x _ => .ok x, decB := fun src n => .ok (src.take n) }
     lz4Prefix [0, 0, 0, 5, 0x41] = 5 ∧ (lz4Decode b [0, 0, 0, 5, 0x41]).toOption = some [0x41] := by decide
+
+/-! ### lz4: the block format as a concrete block codec (Model/CompressLz4Block.lean) -/
+
+/-- **The LZ4 block format satisfies both block-codec hypotheses, for every body**: the literal-only
+    block is never longer than `CompressBlockBound` (so it fits every destination lz4.go allocates),
+    and the format's decoder, given a destination of exactly the body's length, gives the body back.
+    `BlockCodec.RoundTrips` / `TotalAtBound` are therefore satisfiable by the real wire format. -/
+theorem C18_lz4_format_codec : lz4Ref.RoundTrips ∧ lz4Ref.TotalAtBound := by
+  constructor
+  · intro x n z hx _ he
+    simp only [lz4Ref] at he
+    split at he
+    · injection he with he; subst he; exact lz4LitBlock_decodes x hx
+    · cases he
+  · intro x n hn
+    have := lz4LitBlock_length x
+    exact ⟨lz4LitBlock x, by simp only [lz4Ref]; rw [if_pos (by omega)]⟩
+
+/-- **Cassandra's lz4 framing end to end, no codec hypothesis**: for every body below 2³² bytes the
+    wrapper of lz4/lz4.go around the LZ4 block format encodes (prefix = big-endian length, then ONE
+    block), an independent reader of that framing gets the body, and the wrapper's own Decode does. -/
+theorem C18_lz4_format_delivered (x : Bytes) (hx : x.length < 4294967296) :
+    ∃ y, lz4Encode lz4Ref x = .ok y ∧ 4 ≤ y.length ∧ lz4Prefix y = x.length ∧
+         (x ≠ [] → lz4BlockDecode (y.drop 4) x.length = .ok x) ∧ lz4Decode lz4Ref y = .ok x :=
+  C18_lz4_delivered lz4Ref C18_lz4_format_codec.1 C18_lz4_format_codec.2 x hx
+
+example : (lz4Encode lz4Ref [7, 8, 9]).toOption = some [0, 0, 0, 3, 0x30, 7, 8, 9] ∧
+    (lz4Decode lz4Ref [0, 0, 0, 3, 0x30, 7, 8, 9]).toOption = some [7, 8, 9] ∧
+    (lz4Decode lz4Ref [0, 0, 0, 0]).toOption = some [] := by decide
+
+/-- the format's decoder on matches: a literal then an OVERLAPPING match (offset 1: a run), then the
+    last literals; and the errors of the format: offset 0, an offset before the start of the output, a
+    match past the destination, literals past the input, a block that ends after a match, a length
+    extension that never ends -/
+theorem C18_lz4_format_examples :
+    (lz4BlockDecode [0x11, 0x41, 0x01, 0x00, 0x10, 0x42] 7).toOption = some [0x41, 0x41, 0x41, 0x41, 0x41, 0x41, 0x42] ∧
+    (lz4BlockDecode [0x11, 0x41, 0x00, 0x00, 0x10, 0x42] 7).toOption = none ∧
+    (lz4BlockDecode [0x11, 0x41, 0x02, 0x00, 0x10, 0x42] 7).toOption = none ∧
+    (lz4BlockDecode [0x11, 0x41, 0x01, 0x00, 0x10, 0x42] 6).toOption = none ∧
+    (lz4BlockDecode [0x30, 0x41] 3).toOption = none ∧
+    (lz4BlockDecode [0x11, 0x41, 0x01, 0x00] 7).toOption = none ∧
+    (lz4BlockDecode [0xF0, 0xFF, 0xFF] 1000).toOption = none := by decide
+
+/-- FULL STATEMENT ("a corrupt compressed body yields an error") for the detectable corruption "match
+    offset 0": holds for the format's decoder — kernel-checked on the block that pierrec/lz4 v4.1.8's
+    amd64 decoder ACCEPTS (it copies 8 not-yet-written destination bytes: zeros through lz4.go);
+    replay input of the proposed finding KF-C18-3 (op `lz4dec … err`). -/
+theorem C18_cex_lz4_zero_offset :
+    (lz4Decode lz4Ref [0, 0, 0, 0x22, 0xe4, 0x41, 0x42, 0x43, 0x44, 0x45, 0x46, 0x47, 0x48, 0x49, 0x4a, 0x4b, 0x4c, 0x4d, 0x4e,
+      0x00, 0x00, 0xc0, 0x50, 0x51, 0x52, 0x53, 0x54, 0x55, 0x56, 0x57, 0x58, 0x59, 0x5a, 0x5b]).toOption = none ∧
+    (lz4Decode lz4Ref [0, 0, 0, 0x22, 0xe4, 0x41, 0x42, 0x43, 0x44, 0x45, 0x46, 0x47, 0x48, 0x49, 0x4a, 0x4b, 0x4c, 0x4d, 0x4e,
+      0x01, 0x00, 0xc0, 0x50, 0x51, 0x52, 0x53, 0x54, 0x55, 0x56, 0x57, 0x58, 0x59, 0x5a, 0x5b]).toOption
+      = some [0x41, 0x42, 0x43, 0x44, 0x45, 0x46, 0x47, 0x48, 0x49, 0x4a, 0x4b, 0x4c, 0x4d, 0x4e,
+              0x4e, 0x4e, 0x4e, 0x4e, 0x4e, 0x4e, 0x4e, 0x4e,
+              0x50, 0x51, 0x52, 0x53, 0x54, 0x55, 0x56, 0x57, 0x58, 0x59, 0x5a, 0x5b] := by decide
+
+/-- what the 4-byte prefix is NOT: the format's decoder may legitimately produce fewer bytes than the
+    destination holds — lz4.go hands that short result on (see `C18_cex_lz4_length_unchecked`) -/
+example : (lz4Decode lz4Ref [0, 0, 0, 9, 0x10, 0x41]).toOption = some [0x41] := by decide
 
 /-! ### snappy: the block format as a second concrete codec (Model/CompressSnappy.lean) -/
 
